@@ -5,9 +5,19 @@
   the first `Pull` attempt fails with that class (produced by the real client), later attempts
   succeed; the table records how many attempts were made (see vlib/checks/c09.py and
   harness/overlay/server_internal_registry/zz_verif_c09_retry_test.go).
+
+  Round 7: three more tables, regenerated on every run by executing the real code over a whole
+  finite domain (harness/overlay/*/zz_verif_c09_tables_test.go): `sendRequest`'s status test
+  (100..599), net/http's redirect behaviour as the registry client uses it (method × body kind ×
+  status × Location?, one and two hops), the legacy `makeRequestWithRetry` (100..599); and the
+  variant flags of the tree (the probes that select the model variant for L1), with the headline
+  theorems instantiated for the tree (`tree_*`).
 -/
 import OllamaVerif.Model.Registry
+import OllamaVerif.Properties.C09Tree
 import OllamaVerif.Generated.C09_RetryTable
+import OllamaVerif.Generated.C09_HttpTables
+import OllamaVerif.Generated.C09_Variant
 
 namespace OllamaVerif.Tie.C09
 open OllamaVerif.Registry
@@ -56,5 +66,136 @@ theorem outcomeOf_covers (e : ErrClass) : ∃ s, outcomeOf s = some (.err e) := 
   · exact ⟨"incomplete", rfl⟩
   · exact ⟨"invalidManifest", rfl⟩
   · exact ⟨"deadline", rfl⟩
+
+/-! ### HTTP tables -/
+
+open OllamaVerif.Generated.C09
+
+/-- every status 100..599 has a row -/
+theorem send_table_complete : sendTable.map (·.1) = List.range' 100 500 := by decide +kernel
+
+/-- the real `sendRequest` hands a response to its caller exactly for the statuses the model's
+    `is2xx` accepts (whole status domain, answers without Location) -/
+theorem sendRequest_accepts_exactly_2xx : sendTable.all (fun r => r.2 == is2xx r.1) = true := by decide +kernel
+
+def methodOf : String → Option Method
+  | "GET" => some .get | "HEAD" => some .head | "POST" => some .post | "PUT" => some .put | "PATCH" => some .patch
+  | _ => none
+
+def bodyOf : String → Option BodyKind
+  | "none" => some .none | "rewindable" => some .rewindable | "stream" => some .stream
+  | _ => none
+
+def showMethod : Method → String
+  | .get => "GET" | .head => "HEAD" | .post => "POST" | .put => "PUT" | .patch => "PATCH"
+
+/-- what the model's `follow` says the next request is, after one answer or after two -/
+def modelNext (hops : Nat) (m : Method) (b : BodyKind) (s1 : Nat) (l1 : Bool) (s2 : Nat) : String :=
+  match follow m b ⟨s1, l1⟩ with
+  | none => "-"
+  | some (m', b') =>
+    if hops = 1 then showMethod m'
+    else match follow m' b' ⟨s2, true⟩ with
+      | none => "-"
+      | some (m'', _) => showMethod m''
+
+def followStatuses : List Nat := [100, 199, 200, 201, 204, 206, 300, 301, 302, 303, 304, 305, 306, 307, 308, 399, 400, 404, 500]
+def followHops : List Nat := [301, 302, 303, 307, 308]
+
+/-- the domain the table must cover: every method × body kind × (status × Location? | hop × hop) -/
+def followDomain : List (Nat × String × String × Nat × Bool × Nat) :=
+  ["GET", "HEAD", "POST", "PUT", "PATCH"].flatMap fun m =>
+    ["none", "rewindable", "stream"].flatMap fun b =>
+      (followStatuses.flatMap fun s => [(1, m, b, s, false, 0), (1, m, b, s, true, 0)]) ++
+      (followHops.flatMap fun s1 => followHops.map fun s2 => (2, m, b, s1, true, s2))
+
+theorem follow_table_complete :
+    followTable.map (fun r => (r.1, r.2.1, r.2.2.1, r.2.2.2.1, r.2.2.2.2.1, r.2.2.2.2.2.1)) = followDomain := by
+  decide +kernel
+
+/-- net/http's client (as driven by the registry client's requests) sends the next request the
+    model's `follow` predicts — method kept / turned into GET / answer handed to the caller — for
+    every row, incl. the two-hop rows that show the ORIGINAL request's body kind decides 307/308 -/
+theorem follow_matches_nethttp :
+    followTable.all (fun r =>
+      match methodOf r.2.1, bodyOf r.2.2.1 with
+      | some m, some b => modelNext r.1 m b r.2.2.2.1 r.2.2.2.2.1 r.2.2.2.2.2.1 == r.2.2.2.2.2.2
+      | _, _ => false) = true := by decide +kernel
+
+/-- every status 100..599 except 401, for a body-less HEAD and a PUT, has a row -/
+theorem mrr_table_complete :
+    mrrTable.map (fun r => (r.1, r.2.1)) =
+      ((List.range' 100 500).filter (· != 401)).flatMap (fun s => [("HEAD", s), ("PUT", s)]) := by decide +kernel
+
+def showMrr : Mrr → String
+  | .ok _ => "ok" | .notFound => "notFound" | .err => "err"
+
+/-- the real `makeRequestWithRetry` classifies a final answer exactly as the model's `mrr false`
+    does: 404 → not found, ≥ 400 → error, EVERYTHING else (1xx, 2xx, 3xx) → a response for the
+    caller (whole status domain; on a tree with the F18 repair the 2xx test sits at the call sites:
+    model flag `strict`, selected by a probe) -/
+theorem mrr_matches_makeRequestWithRetry :
+    mrrTable.all (fun r => showMrr (mrr false (some ⟨r.2.1, false⟩)) == r.2.2) = true := by decide +kernel
+
+
+/-! ### The tree's variant -/
+
+open OllamaVerif.C09
+
+/-- the model configuration of the working tree (threshold and MaxStreams are free) -/
+def treeCfg (thr : Nat) (limit : Option Nat) : Cfg := ⟨thr, limit, treeLinkShortcut, treeVerify, treeStaged⟩
+
+/-- the working tree re-hashes every layer before `Link` (probe: the F10b scenario on the real
+    client ends in an error).  A tree that loses the `verifyLayer` pass breaks this theorem. -/
+theorem tree_verifies : treeVerify = true := by decide
+
+/-- `pull_success_verified` for the working tree -/
+theorem tree_pull_success_verified {D : Type} [DecidableEq D] (H : Bytes → D) (thr : Nat) (limit : Option Nat)
+    (hcol : treeStaged = true → NoLenCollision H) (c c' : Cache D) (a : Attempt D)
+    (h : pull H (treeCfg thr limit) c a = (c', .ok)) :
+    ∃ m, a.man = .ok m ∧ ∀ l ∈ m.all, Good H c' l.digest l.size :=
+  pull_success_verified H (treeCfg thr limit) tree_verifies hcol c c' a h
+
+/-- the history invariant for the working tree, from an empty cache: with staged chunk files
+    unconditionally (up to `NoLenCollision`), without them for size-consistent histories (F10d) -/
+theorem tree_history_linked_layers_verified {D : Type} [DecidableEq D] (H : Bytes → D) (thr : Nat)
+    (limit : Option Nat) (sz : D → Nat) (as : List (Attempt D))
+    (hcol : treeStaged = true → NoLenCollision H)
+    (hsz : treeStaged = false → ∀ a ∈ as, AttemptSized sz a) :
+    LinkedVerified H (pullHistory H (treeCfg thr limit) Cache.empty as).1 := by
+  by_cases hs : treeStaged = true
+  · exact history_linked_layers_verified H (treeCfg thr limit) tree_verifies hs (hcol hs) as _
+      (linkedVerified_empty H)
+  · have hs' : treeStaged = false := by simpa using hs
+    have := history_linked_layers_verified_tree H (treeCfg thr limit) tree_verifies hs' sz as (hsz hs') _
+      (linkedVerifiedSized_empty sz H)
+    intro n m hn
+    exact (this n m hn).2
+
+/-- the working tree offers the config blob to the registry (probe: a push of a manifest with a
+    config makes a request naming the config digest) — finding F30 is repaired in /repo (ed2a637ee);
+    a tree that loses the repair breaks this theorem -/
+theorem tree_pushes_config : treePushConfig = true := by decide
+
+/-- new-client push on the working tree: a manifest request implies every blob of `m.all` — config
+    included, the set `Pull` fetches and verifies — was accepted before it -/
+theorem tree_push_manifest_after_every_blob {D : Type} (m : Manifest D)
+    (scripts : List UpScript) (hlen : scripts.length = m.all.length) (sched : List Nat) (man : List Resp)
+    (tr : List PushEv) (ok : Bool) (h : pushManifest treePushConfig m scripts sched man = some (tr, ok))
+    (hman : ∃ e ∈ tr, e.isManifest = true) :
+    ∃ body, tr = body ++ (manifestRun man).1 ∧ (∀ e ∈ body, e.isManifest = false) ∧
+      ∀ i, i < m.all.length → ∃ u, scripts[i]? = some u ∧ (layerRun i u).2 = true ∧
+        ∀ e ∈ (layerRun i u).1, e ∈ body := by
+  rw [tree_pushes_config] at h
+  exact push_manifest_after_every_blob m scripts hlen sched man tr ok h hman
+
+/-- legacy push on the working tree (`strict` as probed) -/
+theorem tree_legacy_push_manifest_last (ls : List LegacyLayer) (man : List Resp) :
+    ((∃ e ∈ (legacyPush treeStrict ls man).1, e.isManifest = true) ↔ (legacyLayers treeStrict 0 ls).2 = true) ∧
+    ((legacyLayers treeStrict 0 ls).2 = true → ∃ body,
+        (legacyPush treeStrict ls man).1 = body ++ (legacyManifest treeStrict man).1 ∧
+        (∀ e ∈ body, e.isManifest = false) ∧ ∀ j, j < ls.length → settled treeStrict j body) ∧
+    ((legacyPush treeStrict ls man).2 = true → (legacyLayers treeStrict 0 ls).2 = true) :=
+  legacy_push_manifest_last treeStrict ls man
 
 end OllamaVerif.Tie.C09
